@@ -4,8 +4,8 @@
 //! (no sampling) and runs the real entry point under `vx::guard`. A value that was accepted is pushed through
 //! every public accessor / formatter / serialiser of its type inside the same guarded call; the accessor being
 //! executed is tracked in a thread-local "stage", so that the panic key names the entry point and, when the
-//! panic happened after acceptance, the accessor:  `"{entry}|{panic.key()}"` resp.
-//! `"{entry}>{accessor}|{panic.key()}"`.
+//! panic happened after acceptance at a site inside the repository, the accessor:  `"{entry}|{panic.key()}"`
+//! resp. `"{entry}>{accessor}|{panic.key()}"` (panics inside a dependency are keyed by the entry point only).
 //!
 //! Families (sub-modules):
 //!   strings — prefix trees of all strings over adversarial alphabets (len ≤ 4 quick / 5 thorough) inside fixed
@@ -182,7 +182,12 @@ pub fn run1(ctx: &Ctx, e: &Entry, input: In<'_>, local: &mut Local, keep_distinc
     Ok(o) => o,
     Err(p) => {
       let stage = STAGE.with(|c| c.get());
-      let entry = if stage.is_empty() { e.name.to_string() } else { format!("{}>{}", e.name, stage) };
+      // The accessor stage is part of the key only when the panic site lies in the repository itself (there,
+      // several unwrap/expect sites of one file share a message and the stage tells them apart); a panic inside
+      // a dependency is identified by (entry point, dependency file, message class) alone, so that one
+      // dependency defect reachable through many accessors keeps one key per entry point.
+      let in_dependency = p.loc.starts_with("crates.io/") || p.loc.starts_with("rust/");
+      let entry = if stage.is_empty() || in_dependency { e.name.to_string() } else { format!("{}>{}", e.name, stage) };
       let key = format!("{entry}|{}", pkey(&p));
       let ilen = match &input {
         In::S(s) => s.len(),
@@ -193,7 +198,8 @@ pub fn run1(ctx: &Ctx, e: &Entry, input: In<'_>, local: &mut Local, keep_distinc
         None => true,
       };
       if report {
-        ctx.violation(&key, &format!("{} @ {}", p.msg, p.loc), &input.case(e.name));
+        let at = if stage.is_empty() { String::new() } else { format!(" [while running: {stage}]") };
+        ctx.violation(&key, &format!("{} @ {}{at}", p.msg, p.loc), &input.case(e.name));
         local.reported.insert(key, ilen);
       }
       local.panics += 1;
